@@ -246,7 +246,7 @@ def validate(work, module, spec, consts, tracefile, tag, explain=False, timeout=
         cfg += "  %s = %s\n" % (k, v)
     cfg += "POSTCONDITION %s\nCHECK_DEADLOCK FALSE\n%s" % (post, extra_cfg)
     rc, out, wall = tlc(work, module, cfg, [], timeout, workers=1, tag=tag,
-                        javaopts="-Dtlc2.tool.queue.IStateQueue=StateDeque")
+                        javaopts="-Dtlc2.tool.queue.IStateQueue=StateDeque -Xss512m")
     m = re.search(r"The depth of the complete state graph search is (\d+)", out)
     depth = int(m.group(1)) if m else None
     accepted = rc == 0 and "Error:" not in out
@@ -264,7 +264,11 @@ def compact(m):
 
 def compact_input(i):
     o = {k: v for k, v in i.get("o", {}).items() if v not in (0, "", [], False, None)}
-    d = {k: v for k, v in i.items() if k not in ("o", "join", "f") and v not in (0, "", [], None)}
+    d = {k: v for k, v in i.items() if k not in ("o", "join", "f", "hm", "with") and v not in (0, "", [], None)}
+    if (i.get("hm") or {}).get("t"):
+        d["hm"] = i["hm"]
+    if i.get("with"):
+        d["with"] = compact_input(i["with"])
     for u in ("uri", "uri2"):
         if u in d:
             d[u] = "".join(d[u])
